@@ -154,9 +154,25 @@ def setup_profile():
     curid = ",".join([str(steps.index(cc) + 1) for cc in cur])
     for ii, st in enumerate(steps):
         print("  {}: {}".format(ii+1, st))
-    stp = input("(currently '{}'): ".format(curid))
-    if stp:
-        pf["preprocessing"] = [steps[int(ii) - 1] for ii in stp.split(",")]
+    while True:
+        stp = input("(currently '{}'): ".format(curid))
+        if stp:
+            try:
+                new = [steps[int(ii) - 1] for ii in stp.split(",")]
+                if min([int(ii) for ii in stp.split(",")]) < 1:
+                    raise IndexError("Step numbers start at 1")
+                # The batch fit rejects a step whose required steps
+                # do not come before it.
+                for jj, pid in enumerate(new):
+                    req = preproc.get_steps_required(pid)
+                    if req and not set(req) <= set(new[:jj]):
+                        raise ValueError(
+                            f"'{pid}' requires the steps {req} before it")
+            except (ValueError, IndexError) as exc:
+                print(f"Invalid selection ({exc}), please type e.g. '1,2'.")
+                continue
+            pf["preprocessing"] = new
+        break
 
     print("\nSelect model number:")
     models = sorted(model.models_available.keys())
